@@ -77,7 +77,8 @@ def generate(seed: int, tier: str = "quick") -> Dict[str, Any]:
     small = rng.random() < 0.45
     n_sp = 3 if small else rng.randint(3, 8)
     n_rules = 2 if small else rng.randint(2, 4)
-    n_ops = rng.randint(3, 8) if small else rng.randint(6, 60)
+    deep = tier == "thorough" and rng.random() < 0.4
+    n_ops = rng.randint(3, 8) if small else (rng.randint(40, 140) if deep else rng.randint(6, 60))
     species = [chr(ord("A") + i) for i in range(n_sp)]
     if not small and rng.random() < 0.3:
         species = [s + str(i) if rng.random() < 0.5 else s for i, s in enumerate(species)]
